@@ -111,6 +111,56 @@ def rvalue(kind, r, big=False):
     raise ValueError(kind)
 
 
+CHUNK = 16384   # the chunk size of the compression / decompression loops (InflateLoop.tla: Chunk)
+
+
+def boundary_values(r, tier):
+    """Values whose payload length sits on / next to a multiple of the codec's chunk size - the boundary
+    classes of the chunk-loop model (N in {k*Chunk - 1, k*Chunk, k*Chunk + 1}) lifted to whole blobs."""
+    targets = [CHUNK, 3 * CHUNK] if tier == "quick" else [CHUNK - 1, CHUNK, CHUNK + 1, 2 * CHUNK, 3 * CHUNK, 3 * CHUNK + 1]
+    out = []
+    for t in targets:
+        out.append(("track_data2", dict(rvalue("track_data2", r), extra=rbytes(r, t - 44))))
+        bd = rvalue("beat_data2", r)
+        bd["dflt"], bd["adj"] = bd["dflt"][:2], bd["adj"][:2]
+        bd["extra"] = rbytes(r, t - (33 + 24 * (len(bd["dflt"]) + len(bd["adj"]))))
+        out.append(("beat_data2", bd))
+        qc = {"cues": [dict({"label": rbytes(r, 5), "off": rf64(r)}, **rcol(r)) for _ in range(8)], "adj": rf64(r), "isadj": 1, "dflt": rf64(r)}
+        qc["extra"] = rbytes(r, t - (8 + 8 * 18 + 17))
+        out.append(("quick_cues2", qc))
+        ov = rvalue("overview2", r)
+        ov["pts"] = [{"l": r.randrange(256), "m": r.randrange(256), "h": r.randrange(256)} for _ in range(1000)]
+        ov["extra"] = rbytes(r, t - (27 + 3000))
+        out.append(("overview2", ov))
+        if (t - 27) % 3 == 0:
+            n = (t - 27) // 3
+            pts = [{"l": r.randrange(256), "m": r.randrange(256), "h": r.randrange(256)} for _ in range(n)]
+            out.append(("overview2", dict(ov, pts=pts, extra=[])))
+            out.append(("overview1", {"spe": rf64(r), "pts": [dict(p, lo=255, mo=255, ho=255) for p in pts]}))
+        if (t - 30) % 6 == 0:
+            n = (t - 30) // 6
+            out.append(("hires1", {"spe": rf64(r), "pts": [{"l": r.randrange(256), "m": r.randrange(256), "h": r.randrange(256),
+                                                            "lo": r.randrange(256), "mo": r.randrange(256), "ho": r.randrange(256)} for _ in range(n)]}))
+        # 1.x quick cues: 25 + 13 n + label bytes
+        n = (t - 25) // 13
+        rest = t - 25 - 13 * n
+        cues = [[dict({"label": rbytes(r, 1), "off": rf64(r)}, **rcol(r))] for _ in range(n)]
+        # (labels must be 1..255 bytes in 1.x: take the remainder out of the count instead)
+        n2 = n - 1
+        spare = t - 25 - 13 * n2 - n2            # bytes still missing when every label has one byte
+        if n2 > 0 and 0 <= spare <= 254 * n2:
+            cues = [[dict({"label": rbytes(r, 1), "off": rf64(r)}, **rcol(r))] for _ in range(n2)]
+            k = 0
+            while spare > 0:
+                add = min(254, spare)
+                cues[k][0]["label"] = rbytes(r, 1 + add)
+                spare -= add
+                k += 1
+            adj = rf64(r)
+            out.append(("quick_cues1", {"cues": cues, "adj": adj, "dflt": adj}))
+    return out
+
+
 def mutate(payload, r):
     p = list(payload)
     c = r.random()
@@ -132,7 +182,7 @@ def run_codec(binary, mode, lines, wd, base):
     return purechecks.run_pure(binary, mode, ins, wd, base)
 
 
-def format_check(prop, tier, seed, want_enc, want_dec_spec, want_dec_foreign, rule, assumptions):
+def format_check(prop, tier, seed, want_enc, want_dec_spec, want_dec_foreign, rule, assumptions, extra=None):
     t0 = time.time()
     wd = vlib.workdir("%s_%s" % (prop, tier))
     binary = vbuild.build_bin("codecdriver", "plain", extra_src=["shim.cpp"])
@@ -146,6 +196,9 @@ def format_check(prop, tier, seed, want_enc, want_dec_spec, want_dec_foreign, ru
         for k in KINDS:
             for i in range(nrand):
                 enc_lines.append(json.dumps({"kind": k, "v": rvalue(k, rnd, big=(tier != "quick" and i % 40 == 0))}) + "\n")
+        # payload lengths on and next to multiples of the chunk size of the (de)compression loops
+        for (k, v) in boundary_values(rnd, tier):
+            enc_lines.append(json.dumps({"kind": k, "v": v}) + "\n")
     if want_dec_spec:
         for v in vals:
             d = {"kind": v["kind"], "payload": v["payload"]}
@@ -191,12 +244,17 @@ def format_check(prop, tier, seed, want_enc, want_dec_spec, want_dec_foreign, ru
         for k in v["kf"]:
             kf_seen.setdefault(k["kf"], {"file": f, "record_index": k["record"]})
     nrec = sum(v["records"] for v in vres)
+    extra_cov, extra_acc = {}, 0
+    if extra:
+        v2, extra_cov, extra_acc = extra(wd, tier, seed, vals)
+        violations += v2
     cov = {"states": res["states"], "transitions": res["generated"],
-           "traces_validated_against_impl": sum(v["accepted"] for v in vres),
+           "traces_validated_against_impl": sum(v["accepted"] for v in vres) + extra_acc,
            "evaluations": nrec, "distinct_nontrivial": len(set(enc_lines)) + len(set(dec_lines)),
            "rule": rule, "kinds": KINDS,
            "samples": [json.loads(x) for x in (enc_lines[:1] + dec_lines[:1])],
            "checker_cmd": "tlc MCEngineFormat.tla; tlc TraceFormat.tla (POSTCONDITION Accepted)", "exhaustive": False}
+    cov.update(extra_cov)
     return purechecks.finish(prop, tier, seed, "model_checking", cov, t0, violations, None, kf_seen, assumptions)
 
 
@@ -232,5 +290,17 @@ def check_C04(tier, seed):
         "other than 8, flag bytes 0/1/2/255, unknown fields set, different default and adjusted grids, 0/1/5 trailing bytes) and from seed-chosen "
         "mutation of such payloads (byte flips, truncation, appended and inserted bytes); each is framed with plain zlib, decoded and re-encoded "
         "by the library; whenever the decoder accepts, TLC requires the re-encoded payload to equal the original byte for byte, the main-cue-"
-        "adjusted flag byte alone being normalised to 0/1",
-        COMMON_ASSUME + ["the setter part of C04 (single-field setters on tracks holding foreign blobs) is covered by the C06 check's blob frame"])
+        "adjusted flag byte alone being normalised to 0/1; setter part: such foreign blobs are stored into the five performance-data columns of "
+        "schema-2.x tracks behind the library's back (plain SQLite), every blob-addressing setter (hot_cue_at, hot_cues, main_cue, loop_at, loops, "
+        "beatgrid, sample_rate, sample_count, key, average_loudness, waveform) and some that address none are called with value classes from "
+        "MCTrackFields, and after every call the un-framed payload of every blob column of every track is logged: TLC (TraceTrackBlobs) requires "
+        "columns the setter does not address to stay byte-identical on all tracks and the addressed column to equal Enc(kind, value with only "
+        "the addressed field changed)",
+        COMMON_ASSUME + ["for key, sample_count, beatgrid and waveform the new field bytes are not modelled: only the bytes outside the field "
+                         "(fixed positions, trailing bytes) are compared"],
+        extra=_setter_part)
+
+
+def _setter_part(wd, tier, seed, vals):
+    import blobsetcheck
+    return blobsetcheck.blob_setter_part(wd, tier, seed, vals)
